@@ -90,8 +90,8 @@ type Agg struct {
 	MaxCPUms   int64             `json:"max_cpu_ms"`
 	Distinct   int64             `json:"distinct"`
 	hashes     map[uint64]struct{}
-	TotalViol  int64             `json:"total_violations"`
-	Tier       string            `json:"tier"`
+	TotalViol  int64                  `json:"total_violations"`
+	Tier       string                 `json:"tier"`
 	Extra      map[string]interface{} `json:"extra,omitempty"`
 }
 
@@ -135,9 +135,19 @@ func (c *Ctx) Journal(desc interface{}) {
 	c.sub++
 	if c.w != nil {
 		c.w.journal(c.Index, c.sub, b)
+		// the CPU budget is counted from here: from the moment the library is about to be entered
+		c.w.caseStart.Store(cpuNow())
 	}
 	if c.Replay {
 		fmt.Printf("case %d.%d: %s\n", c.Index, c.sub, b)
+	}
+}
+
+// LibDone tells the watchdog that the library has returned: CPU spent afterwards (reference model, oracle) does not
+// count towards the per-case budget, which is about the library only. The next Journal call starts the clock again.
+func (c *Ctx) LibDone() {
+	if c.w != nil {
+		c.w.caseStart.Store(-1)
 	}
 }
 
